@@ -290,6 +290,7 @@ struct Case {
     cluster: Option<Ipv4Addr>,
     max: usize,
     policy0: Option<Arc<table::PolicyAssignment>>,
+    import: Option<Arc<table::PolicyAssignment>>,
     srcs: Vec<Arc<table::Source>>,
     pfxs: Vec<(Ipv4Addr, u8, usize)>,
     asets: Vec<Vec<packet::Attribute>>,
@@ -299,7 +300,7 @@ struct Case {
 }
 
 fn parse_case(t: &Term) -> Option<Case> {
-    let [shards, ctx, sess, pol, srcs, pfxs, asets, pols, pre, ops] = t.tagged("c01")? else {
+    let [shards, ctx, sess, pol, imp, srcs, pfxs, asets, pols, pre, ops] = t.tagged("c01")? else {
         return None;
     };
     let [k] = shards.tagged("shards")? else {
@@ -322,6 +323,36 @@ fn parse_case(t: &Term) -> Option<Case> {
     }
     let [pol] = pol.tagged("pol0")? else {
         return None;
+    };
+    // import policy: `none` or `(origin v)` = reject routes whose ORIGIN is v
+    let [imp] = imp.tagged("imp")? else {
+        return None;
+    };
+    let import = if imp.as_atom() == Some("none") {
+        None
+    } else {
+        let [v] = imp.tagged("origin")? else {
+            return None;
+        };
+        let v = nat_small(v)?;
+        if v > 255 {
+            return None;
+        }
+        let stmt = Arc::new(table::Statement {
+            name: Arc::from("is"),
+            conditions: vec![table::Condition::Origin(v as u8)],
+            disposition: Some(table::Disposition::Reject),
+            actions: Default::default(),
+        });
+        Some(Arc::new(table::PolicyAssignment {
+            name: Arc::from("import"),
+            disposition: table::Disposition::Accept,
+            policies: vec![Arc::new(table::Policy {
+                name: Arc::from("ip"),
+                statements: vec![stmt],
+            })],
+            needs_rpki: false,
+        }))
     };
     let srcs: Vec<_> = srcs
         .tagged("srcs")?
@@ -362,6 +393,7 @@ fn parse_case(t: &Term) -> Option<Case> {
         cluster: opt32(cluster)?.map(Ipv4Addr::from),
         max: mx,
         policy0: policy_of(pol)?,
+        import,
         srcs,
         pfxs: pf,
         asets,
@@ -381,6 +413,7 @@ enum Op {
     Wd(usize, usize, u32),
     Down(usize),
     Llgr(usize),
+    Nh(u32, bool),
     Reset(Option<usize>),
     Deliver(usize),
     Flush,
@@ -424,6 +457,9 @@ fn parse_op(c: &Case, t: &Term, pre: bool) -> Option<Op> {
             return None;
         }
         return Some(Op::Llgr(i));
+    }
+    if let Some([a, up]) = t.tagged("nh") {
+        return Some(Op::Nh(nat32(a)?, up.as_bool()?));
     }
     if let Some([k]) = t.tagged("reset") {
         if k.as_atom() == Some("none") {
@@ -514,6 +550,7 @@ fn pump(s: &mut PeerSession, q: &mut VecDeque<Ev>, sort: bool) {
 
 async fn run(c: &Case) -> String {
     let tables: TableHandle = Arc::new(TableManager::new(c.shards));
+    tables.import_policy.store(c.import.clone());
     // the case claims a shard for every prefix (the model needs it for the id allocators): verify
     {
         let probe = TableManager::new(c.shards);
@@ -584,6 +621,9 @@ async fn run(c: &Case) -> String {
         Op::Llgr(s) => {
             tables.mark_llgr_stale(c.srcs[*s].remote_addr, &[Family::IPV4]);
         }
+        Op::Nh(a, up) => {
+            tables.update_nexthop_validity(IpAddr::V4(Ipv4Addr::from(*a)), *up);
+        }
         _ => {}
     };
     for o in &c.pre {
@@ -643,7 +683,7 @@ async fn run(c: &Case) -> String {
                 rib_op(&op);
                 pump(&mut a, &mut q, false);
             }
-            Op::Down(_) | Op::Llgr(_) => {
+            Op::Down(_) | Op::Llgr(_) | Op::Nh(..) => {
                 rib_op(&op);
                 pump(&mut a, &mut q, true);
             }
